@@ -142,6 +142,10 @@ size_t varintPFOREncode(uint8_t *dst, const uint64_t *values, uint32_t count,
 
     /* Compute metadata */
     varintPFORComputeThreshold(values, count, threshold, meta);
+    if (meta->count != count) {
+        /* Threshold analysis could not allocate its scratch copy */
+        return 0;
+    }
 
     /* Write header: min, width, count */
     dst += varintTaggedPut64(dst, meta->min);
@@ -160,9 +164,9 @@ size_t varintPFOREncode(uint8_t *dst, const uint64_t *values, uint32_t count,
     if (meta->exceptionCount > 0) {
         exceptions = malloc(meta->exceptionCount * sizeof(Exception));
         if (!exceptions) {
-            /* Out of memory - fall back to encoding without exception tracking
-             * This will still produce valid output, just not optimal */
-            meta->exceptionCount = 0;
+            /* Out of memory: without the exception list the outliers cannot
+             * be represented, so report failure instead of truncating them */
+            return 0;
         }
     }
 
